@@ -405,7 +405,7 @@ def run(tier, seed):
                                 kernprof=[dict(rc=b['rc'], exc=b['exc'], out=b['out'][:4]) for b in bres[i]['kern']]))
     if trees:
         c, t = trees[len(trees) // 2]
-        samples.append(dict(script=c['files'][c['script']][:300], prof_mod=c['prof_mod'], full=t['full'],
+        samples.append(dict(script=c['files'][c.get('script_real', c['script'])][:300], prof_mod=c['prof_mod'], full=t['full'],
                             inserted=AC.regs(t['out'])))
     res.coverage = dict(
         evaluations=len(rows) + runs, distinct_nontrivial=len(nontrivial) + sum(len(c['configs']) for c in beh),
